@@ -567,6 +567,7 @@ func NewDataService(t TypeService, rootUUID dvid.UUID, id dvid.InstanceID, name 
 		typename:    t.GetTypeName(),
 		typeurl:     t.GetTypeURL(),
 		typeversion: t.GetTypeVersion(),
+		tags:        map[string]string{}, // as after a reload, so /info reads the same before and after a restart
 		dataUUID:    dataUUID,
 		id:          id,
 		name:        name,
